@@ -204,12 +204,12 @@ CHECKS = {
                         "built with -race -gcflags=all=-d=checkptr=0 (the router's controller pools do uintptr arithmetic)"],
         "parallel_quick": 2,
         "runs": [
-            {"pkg": "racew", "race": True, "run": "^TestC14Programs$", "quick": 100, "thorough": 1600, "shards_thorough": 8, "timeout_quick": 900, "timeout_thorough": 7200},
+            {"pkg": "racew", "race": True, "run": "^TestC14Programs$", "quick": 100, "thorough": 800, "shards_thorough": 8, "timeout_quick": 900, "timeout_thorough": 7200},
             {"pkg": "racew", "race": True, "run": "^TestC14Pairs$", "quick": 1, "thorough": 1, "rapid": False, "env": {"VERIF_C14_ROUNDS": "3000"}, "timeout_quick": 900},
             {"pkg": "racew", "race": True, "run": "^TestC14Codecs$", "quick": 300, "thorough": 20000, "shards_thorough": 4},
             {"pkg": "racew", "race": True, "run": "^TestC14Overloader$", "quick": 60, "thorough": 3000, "shards_thorough": 4},
             {"pkg": "racew", "race": True, "run": "^TestC14Pairs$", "quick": 1, "thorough": 1, "rapid": False, "only": "thorough", "env": {"VERIF_C14_ROUNDS": "30000"}},
-            {"pkg": "racew", "race": True, "run": "^TestC14Programs$", "quick": 40, "thorough": 400, "shards_thorough": 4, "env": {"VERIF_C14_LOG": "info"}, "timeout_quick": 900, "timeout_thorough": 7200},
+            {"pkg": "racew", "race": True, "run": "^TestC14Programs$", "quick": 40, "thorough": 200, "shards_thorough": 4, "env": {"VERIF_C14_LOG": "info"}, "timeout_quick": 900, "timeout_thorough": 7200},
         ],
     },
     "C13": {
